@@ -770,6 +770,30 @@ func check(c Case) hx.Verdict {
 				}
 			}
 		}
+		// frame, for what the right-hand side only reads: a sequence read at the index just past its end (and
+		// further out) is not padded by that read
+		if orig.K == model.Map {
+			aps, ans := allPaths(orig)
+			for i, n := range ans {
+				if n.K != model.Seq || len(aps[i]) == 0 {
+					continue
+				}
+				for _, off := range []int{0, 2} {
+					e9 := fmt.Sprintf(`.["zz_read"] = %s[%d]`, pathText(aps[i]), len(n.Elem)+off)
+					g, og := run1(e9, c.Doc)
+					if v := crash(og, e9, c.Doc); v != nil {
+						return *v
+					}
+					want := orig.Copy()
+					want, _ = set(want, []Step{{K: "zz_read"}}, model.NewNull())
+					if g == nil || !model.Equal(g, want) {
+						return hx.Bad("", "frame: `%s` gives %v, expected %s (err %q): doc=%s", e9, js(g), want.JSON(), og.Err, c.Doc)
+					}
+				}
+				labels = append(labels, "rhs_reads_past_the_end")
+				break
+			}
+		}
 		// get-put (existing single path)
 		if c.LHS == nil && M[0].v != nil {
 			e5 := lhs + " = " + lhs
